@@ -6,6 +6,7 @@ reference byte queue is not decided."""
 from .. import q
 from ..facts import AnalysisBroken
 from . import lin_buffer
+from . import c08_alias
 
 EXPLANATION = (
     "Static path/effect rules over every member function of class Buffer (AST + clang CFG of /repo's current "
@@ -184,6 +185,7 @@ def run(prog, chk):
                 "Buffer owns a heap block but its special members are %s: an implicit copy aliases the block" % sm)
 
     lin_buffer.run(prog, chk, fs)
+    c08_alias.run(prog, chk, fs)
 
 
 def _branch_tag(f, w):
